@@ -238,12 +238,13 @@ Definition step (w : world) (o : op) : world * outcome :=
       match get w ti, get w t2i with
       | Some a, Some b =>
           if negb (Nat.eqb (fam a) (fam b)) then (w, Err PlainException)
-          else if negb (forallb (fun '(n, _) => has_name b n) (names a)) then (w, Err KeyError)
+          (* a same-named column of another type: which exception comes first depends on the column order; not modelled *)
           else if negb (forallb (fun '(n, k, _) => match slot_of b n with
                                                   | Some s => match k, skind s with
                                                               | KMixed, KMixed | KFloat, KFloat | KInt, KInt => true
                                                               | _, _ => false end
-                                                  | None => false end) (view a)) then (w, OutOfModel)
+                                                  | None => true end) (view a)) then (w, OutOfModel)
+          else if negb (forallb (fun '(n, _) => has_name b n) (names a)) then (w, Err KeyError)
           else
             let rid := merge_ids mo (ids a) (ids b) in
             (* row k comes from a when a holds it, otherwise from b; a's columns *)
